@@ -57,9 +57,42 @@ pub struct Case {
 }
 
 fn run_one(c: &Case, prob: &Prob, rtol: Tol, atol: Tol, first_step: Option<f64>) -> Result<Solution, String> {
+    run_one_rec(c, prob, rtol, atol, first_step, false).map(|(s, _)| s)
+}
+
+/// whether the solver really evaluated the right-hand side at (32 ulps around) the reported step end `s.t[i]`: every
+/// adaptive method here has a stage at the new point (FSAL / c = 1 / the BDF and Radau corrector), so a reported "step"
+/// without one is a mislabelled state, not an accepted step (e.g. a short retry step reported at xend) -- and never K1
+fn genuine_step(s: &Solution, times: &[f64], i: usize) -> bool {
+    let x = s.t[i];
+    let u = 32.0 * ulp(x.abs().max(s.t[i - 1].abs()));
+    times.iter().any(|t| (t - x).abs() <= u)
+}
+
+/// For the explicit pairs: is the reported step i really ONE accepted step of the method?  Re-run it alone: from the
+/// reported (x_{i-1}, y_{i-1}) with first_step = x_i - x_{i-1} to x_i under the same tolerances.  K1 means that this single
+/// step passes the error test although its error is large; if it is rejected, the reported state at x_i is not the result of
+/// that step (e.g. the state of a shorter retry step labelled xend) and the violation is not K1's.
+fn confirm_step(c: &Case, prob: &Prob, rtol: &Tol, atol: &Tol, s: &Solution, i: usize) -> bool {
+    if !matches!(c.method, Meth::RK23 | Meth::DOPRI5 | Meth::DOP853) {
+        return true;
+    }
+    let none: Vec<EvSpec> = vec![];
+    let mut instr = Instr::new(prob, &none);
+    instr.dir = c.span.dir();
+    let o = RunOpts { method: c.method, rtol: rtol.clone(), atol: atol.clone(), first_step: Some(s.t[i] - s.t[i - 1]), max_step: None, max_steps: Some(4), t_eval: None, dense: false };
+    match solve(&instr, s.t[i - 1], s.t[i], &s.y[i - 1], &o) {
+        RunResult::Ok(r) => r.status == Status::Success && r.naccpt == 1 && r.nrejct == 0 && r.y.last().map_or(false, |y| max_abs_diff(y, &s.y[i]) <= 1e-9 * (1.0 + inf_norm(&s.y[i]))),
+        _ => false,
+    }
+}
+
+/// the run, and (if `rec`) the times of all right-hand-side evaluations outside Jacobian differencing
+fn run_one_rec(c: &Case, prob: &Prob, rtol: Tol, atol: Tol, first_step: Option<f64>, rec: bool) -> Result<(Solution, Vec<f64>), String> {
     let sp = &c.span;
     let none: Vec<EvSpec> = vec![];
     let mut instr = Instr::new(prob, &none);
+    instr.rec_ode = rec;
     instr.dir = sp.dir();
     instr.use_jac = c.analytic_jac;
     // RK4's convergence order is measured at the step ends (the interpolant's order is C07's subject:
@@ -67,7 +100,10 @@ fn run_one(c: &Case, prob: &Prob, rtol: Tol, atol: Tol, first_step: Option<f64>)
     let t_eval = if c.method == Meth::RK4 { None } else { c.t_eval.as_ref().map(|f| fracs_to_times(sp, f)) };
     let o = RunOpts { method: c.method, rtol, atol, first_step, max_step: None, max_steps: None, t_eval, dense: false };
     match solve(&instr, sp.x0, sp.xend, &prob.y0(), &o) {
-        RunResult::Ok(s) => Ok(s),
+        RunResult::Ok(s) => {
+            let times = instr.take_log().ode_t;
+            Ok((s, times))
+        }
         other => Err(other.describe()),
     }
 }
@@ -105,7 +141,7 @@ fn single_overlong_step(c: &Case, prob: &Prob, rtol: Tol, atol: Tol, bound: f64,
     };
     let mut c2 = c.clone();
     c2.t_eval = None;
-    let s = match run_one(&c2, prob, rtol, atol, None) {
+    let (s, times) = match run_one_rec(&c2, prob, rtol.clone(), atol.clone(), None, true) {
         Ok(s) => s,
         Err(_) => return false,
     };
@@ -113,6 +149,9 @@ fn single_overlong_step(c: &Case, prob: &Prob, rtol: Tol, atol: Tol, bound: f64,
     for i in 0..s.t.len() {
         let e = dist(&s.y[i], &prob.exact(s.t[i]));
         if e > bound {
+            if i >= 1 && !(genuine_step(&s, &times, i) && confirm_step(c, prob, &rtol, &atol, &s, i)) {
+                return false;
+            }
             if i == 1 {
                 // first-step variant: there is no predecessor to compare with; the step chosen by the automatic
                 // initial-step heuristic lies outside the asymptotic range (h * rate > 1) and is accepted because the
@@ -149,7 +188,7 @@ fn overlong_step_dominates(c: &Case, prob: &Prob, rtol: Tol, atol: Tol, bound: f
     };
     let mut c2 = c.clone();
     c2.t_eval = None;
-    let s = match run_one(&c2, prob, rtol, atol, None) {
+    let (s, times) = match run_one_rec(&c2, prob, rtol.clone(), atol.clone(), None, true) {
         Ok(s) => s,
         Err(_) => return false,
     };
@@ -157,16 +196,19 @@ fn overlong_step_dominates(c: &Case, prob: &Prob, rtol: Tol, atol: Tol, bound: f
     if !e.iter().any(|v| *v > bound) {
         return false;
     }
-    if c.method != Meth::RK4 && s.t.len() > 1 && prob.rate_t() * (s.t[1] - s.t[0]).abs() > 1.0 && e[1] >= 0.5 * bound {
+    if c.method != Meth::RK4 && s.t.len() > 1 && prob.rate_t() * (s.t[1] - s.t[0]).abs() > 1.0 && e[1] >= 0.5 * bound && genuine_step(&s, &times, 1) && confirm_step(c, prob, &rtol, &atol, &s, 1) {
         return true;
     }
     (2..s.t.len()).any(|i| {
+        if !genuine_step(&s, &times, i) {
+            return false;
+        }
         let h = (s.t[i] - s.t[i - 1]).abs();
         let mut hp = (s.t[i - 1] - s.t[i - 2]).abs();
         if i >= 3 {
             hp = hp.min((s.t[i - 2] - s.t[i - 3]).abs());
         }
-        h >= 2.5 * hp && e[i] - e[i - 1] >= 0.5 * bound
+        h >= 2.5 * hp && e[i] - e[i - 1] >= 0.5 * bound && confirm_step(c, prob, &rtol, &atol, &s, i)
     })
 }
 
